@@ -112,3 +112,31 @@ func VerifNewlines(avx512 bool, buf []byte, quoteMask uint64) uint64 {
 func VerifFlatten(base *[1536]uint32, index *int, mask uint64, carried *int, position *uint64) {
 	flatten_bits_incremental(base, index, mask, carried, position)
 }
+
+// VerifInternal is a handle on the reusable parser state behind a ParsedJson; it stays valid when a
+// later parse with that object as reuse argument fails.
+type VerifInternal struct{ p *internalParsedJson }
+
+// VerifInternalOf returns the handle of a ParsedJson returned by Parse.
+func VerifInternalOf(pj *ParsedJson) VerifInternal {
+	if pj == nil {
+		return VerifInternal{}
+	}
+	return VerifInternal{pj.internal}
+}
+
+// ChanLen reports how many index buffers are queued between the stages (-1 without channel).
+func (v VerifInternal) ChanLen() int {
+	if v.p == nil || v.p.indexChans == nil {
+		return -1
+	}
+	return len(v.p.indexChans)
+}
+
+// ChanCap reports the capacity of the channel between the stages (-1 without channel).
+func (v VerifInternal) ChanCap() int {
+	if v.p == nil || v.p.indexChans == nil {
+		return -1
+	}
+	return cap(v.p.indexChans)
+}
